@@ -43,6 +43,17 @@ type c05Case struct {
 	Ref    bool      `json:"ref_written,omitempty"`
 	Tree   *treeSpec `json:"tree,omitempty"`
 	Hand   string    `json:"hand,omitempty"` // label of a hand-written file DAG (gen.HandFamily)
+	// Opener: how the file is opened: "" = the lazy reifier; "NewUnixFSFile" =
+	// the file package directly; "NewUnixFSFile-any" = the same over a root
+	// decoded without the dag-pb prototype
+	Opener string `json:"opener,omitempty"`
+}
+
+func (c c05Case) opener() string {
+	if c.Opener == "" {
+		return "unixfs"
+	}
+	return c.Opener
 }
 
 // buildFile writes the file DAG of a "file" or "hand" case.
@@ -63,13 +74,20 @@ func (c c05Case) buildFile() (*store.Store, cid.Cid, error) {
 func (c c05Case) String() string {
 	switch c.Kind {
 	case "file":
-		return "file " + c.File.String()
+		return "file " + c.File.String() + c.openerSuffix()
 	case "hand", "handshard":
-		return c.Hand
+		return c.Hand + c.openerSuffix()
 	case "path":
 		return "path-tree " + c.Tree.String()
 	}
 	return fmt.Sprintf("shard F=%d ref=%v %q", c.Fanout, c.Ref, trimNames(c.Names))
+}
+
+func (c c05Case) openerSuffix() string {
+	if c.Opener == "" {
+		return ""
+	}
+	return " opened with " + c.Opener
 }
 
 func extraReads(log []cid.Cid, allowed map[string]bool) []cid.Cid {
@@ -113,7 +131,7 @@ func (c c05Case) runFile(viol func(sig, detail string), r *core.Run) {
 		return
 	}
 	s.ResetLogs()
-	n, err := openVia("unixfs", ls, rootNode)
+	n, err := openVia(c.opener(), ls, rootNode)
 	if err != nil {
 		viol("reify-error", fmt.Sprintf("%s: %v", c, err))
 		return
@@ -440,6 +458,10 @@ func c05Concurrent(r *core.Run) {
 							grew = true
 						}
 					}
+					schedCapRun = r.Cap
+					if sc.outside() {
+						return "unmodelled"
+					}
 					for i, t := range sc.threads {
 						want := fmt.Sprintf("%x", content[pr[i].a:pr[i].b])
 						if t.panicv != nil {
@@ -479,6 +501,7 @@ func c05Concurrent(r *core.Run) {
 	r.Set("concurrent_schedules_executed", execs)
 	r.Set("concurrent_preemption_bound_completed", bound)
 	r.Set("instrumentation", os.Getenv("VERIF_INSTR"))
+	noteDegraded(r)
 }
 
 func runC05(r *core.Run) {
@@ -504,12 +527,18 @@ func runC05(r *core.Run) {
 			continue
 		}
 		cases = append(cases, c05Case{Kind: "file", File: f})
+		// the file package used directly, over a typed and over an untyped root
+		// (trees of 3+ levels: the root's children are dag-pb nodes)
+		if f.L > f.W*f.K && f.L%2 == 1 {
+			cases = append(cases, c05Case{Kind: "file", File: f, Opener: "NewUnixFSFile"}, c05Case{Kind: "file", File: f, Opener: "NewUnixFSFile-any"})
+		}
 	}
 	// hand-written encodings on which laziness can be exact (every child's size
 	// recorded where the reader looks for it), incl. links without Tsize
 	for _, h := range gen.HandFamily() {
 		if h.LazyExact() {
 			cases = append(cases, c05Case{Kind: "hand", Hand: h.Label})
+			cases = append(cases, c05Case{Kind: "hand", Hand: h.Label, Opener: "NewUnixFSFile-any"})
 		}
 	}
 	usize := 9
